@@ -957,3 +957,4 @@ def run(chk, F):
         "orderings suffice in every interleaving is a model-checking question and is not decided",
         "unwind (panic) edges are ignored: a panic inside the runtime aborts the process",
     ]
+    from rules import a64; a64.run_c04(chk, F)  # noqa: E702  arm64 siblings (aarch64 fact set)
